@@ -76,11 +76,10 @@ mutual
     | sliceObj (a b c : Arg L)                             -- a slice object that is not an index
     | path (root : String) (steps : List (Step L))         -- a nested Path object
     -- what `reprlib` leaves when a limit is exceeded (never part of a value)
-    | bad (text : String)                                  -- a scalar cut in the middle / not an expression (`inf`)
+    | bad (text : String)                                  -- a scalar or an instance repr cut in the middle / not an expression (`inf`)
     | fill                                                 -- `...` in place of the elements after the limit
     | deep (k : Kind)                                      -- a non-empty container below `maxlevel`: `[...]`
     | dictMore (kvs : List (Arg L × Arg L))                -- the first `maxdict` entries, then `...`
-    | cut (a : Arg L)                                      -- an instance repr longer than `maxother`, cut in the middle
   /-- one element of an index: a value, or `slice(a, b, c)` (`none` is `None`) -/
   inductive Item (L : Type) where
     | one (a : Arg L)
@@ -122,8 +121,7 @@ inductive Tok (L : Type) where
   | par (children : List (Tok L))    -- `( … )`
   | brace (children : List (Tok L))  -- `{ … }`
   | fill                             -- reprlib's `...`
-  | bad (text : String)              -- a cut scalar / a name that is not bound (`inf`, `nan`)
-  | cut (children : List (Tok L))    -- a text cut in the middle
+  | bad (text : String)              -- a text cut in the middle / a name that is not bound (`inf`, `nan`)
 
 /-- the switches of `_format_t` extracted from the source (all `true` after commit 0224102) -/
 structure FmtFacts where
@@ -251,7 +249,6 @@ mutual
     | .dictMore kvs =>
       [.brace (joinSep .comma
         (kvs.map (fun p => fmtArg F p.1 ++ Tok.colon :: fmtArg F p.2) ++ [[Tok.fill]]))]
-    | .cut a => [.cut (fmtArg F a)]
   termination_by a => sizeOf a
   decreasing_by all_goals c18_dec
   /-- `_format_slice(x)` -/
@@ -345,7 +342,7 @@ def cutStr (max : Nat) (s : String) : String :=
   else s
 
 mutual
-  def renderTok {L} (txt : L → String) (maxother : Nat) : Tok L → String
+  def renderTok {L} (txt : L → String) : Tok L → String
     | .root r => r
     | .name n => n
     | .dot n => "." ++ String.ofList n
@@ -354,26 +351,25 @@ mutual
     | .kw k => k ++ "="
     | .comma => ", "
     | .colon => ":"
-    | .br ch => "[" ++ renderToks txt maxother ch ++ "]"
-    | .par ch => "(" ++ renderToks txt maxother ch ++ ")"
-    | .brace ch => "{" ++ renderBrace txt maxother ch ++ "}"
+    | .br ch => "[" ++ renderToks txt ch ++ "]"
+    | .par ch => "(" ++ renderToks txt ch ++ ")"
+    | .brace ch => "{" ++ renderBrace txt ch ++ "}"
     | .fill => "..."
     | .bad s => s
-    | .cut ch => cutStr maxother (renderToks txt maxother ch)
   termination_by t => sizeOf t
   decreasing_by all_goals c18_dec
   /-- a trailing comma is printed without the space (`index += ','`, `(x,)`) -/
-  def renderToks {L} (txt : L → String) (maxother : Nat) : List (Tok L) → String
+  def renderToks {L} (txt : L → String) : List (Tok L) → String
     | [] => ""
     | [.comma] => ","
-    | t :: r => renderTok txt maxother t ++ renderToks txt maxother r
+    | t :: r => renderTok txt t ++ renderToks txt r
   termination_by ts => sizeOf ts
   decreasing_by all_goals c18_dec
   /-- directly inside `{ … }` the colon of an entry is followed by a space -/
-  def renderBrace {L} (txt : L → String) (maxother : Nat) : List (Tok L) → String
+  def renderBrace {L} (txt : L → String) : List (Tok L) → String
     | [] => ""
-    | .colon :: r => ": " ++ renderBrace txt maxother r
-    | t :: r => renderTok txt maxother t ++ renderBrace txt maxother r
+    | .colon :: r => ": " ++ renderBrace txt r
+    | t :: r => renderTok txt t ++ renderBrace txt r
   termination_by ts => sizeOf ts
   decreasing_by all_goals c18_dec
 end
@@ -381,7 +377,8 @@ end
 /-- `repr_instance` on an object whose builtin repr is the token list of `a`:
     `if len(s) > self.maxother` it is cut in the middle -/
 def cutInst {L} (S : ScalarOps L) (F : FmtFacts) (lim : Limits) (plain : Bool) (a : Arg L) : Arg L :=
-  if plain || (renderToks S.text lim.maxother (fmtArg F a)).length ≤ lim.maxother then a else .cut a
+  if plain || (renderToks S.text (fmtArg F a)).length ≤ lim.maxother then a
+  else .bad (cutStr lim.maxother (renderToks S.text (fmtArg F a)))
 
 /-- `repr_int` / `repr_str` / `repr_instance` (bbrepr), or the builtin `repr`, of a scalar -/
 def truncLit {L} (S : ScalarOps L) (lim : Limits) (plain : Bool) (v : L) : Arg L :=
@@ -420,7 +417,6 @@ mutual
     | .fill => .fill
     | .deep k => .deep k
     | .dictMore kvs => .dictMore kvs
-    | .cut a => .cut a
   termination_by a => sizeOf a
   decreasing_by all_goals c18_dec
   def truncItem {L} (S : ScalarOps L) (F : FmtFacts) (lim : Limits) : Item L → Item L
@@ -555,6 +551,12 @@ def pairOpt {α β} (a : Option α) (b : Option β) : Option (α × β) :=
   | some x, some y => some (x, y)
   | _, _ => none
 
+/-- `frozenset(s)` for the set display `s` -/
+def frozensetOf {L} (a : Option (Arg L)) : Option (Arg L) :=
+  match a with
+  | some (.seq .set xs) => some (.seq .frozenset xs)
+  | _ => none
+
 /-- `slice(a, b, c)` -/
 def sliceOfArgs {L} (xs : Option (List (Arg L))) : Option (Arg L) :=
   match xs with
@@ -654,10 +656,7 @@ mutual
       else if n == "slice" then sliceOfArgs (parseElems ch)
       else if n == "set" then (if ch.isEmpty then some (.seq .set []) else none)
       else if n == "frozenset" then
-        match _h : ch with
-        | [] => some (.seq .frozenset [])
-        | [.brace ch2] => (parseElems ch2).map (Arg.seq .frozenset)
-        | _ => none
+        (if ch.isEmpty then some (.seq .frozenset []) else frozensetOf (parseArg ch))
       else none
     | _ => none
   termination_by toks => (sizeOf toks, 1)
